@@ -128,8 +128,8 @@ func (f *fallback) doFallback(ctx context.Context, qCtx *query_context.Context) 
 			close(primFailed)
 			respChan <- nil
 		} else {
-			close(primDone)
 			respChan <- r
+			close(primDone)
 		}
 	}()
 
